@@ -162,9 +162,12 @@ class StreamReversed(StreamWrapper):
     def _read(self, size: int) -> bytes:
         raw = super()._read(size)
 
-        arr = np.frombuffer(raw, np.dtype("int8"))
+        # the substream may hold less than was asked for: reverse the 
+        # whole samples that are there
         num_cols = self.sample_width
-        num_rows = size // self.sample_width
+        num_rows = len(raw) // self.sample_width
+        raw = raw[:num_rows * num_cols]
+        arr = np.frombuffer(raw, np.dtype("int8"))
 
         arr = np.reshape(arr, [num_rows, num_cols])
         arr = np.flip(arr, 0)
